@@ -36,7 +36,9 @@ def gen_value(rng, depth=0, tabular=False):
         if k == 'none':
             return 'none'
         if k == 'date':
-            return ['date', rng.choice(['2020-01-02T03:04:05', '1999-12-31T23:59:59.000123'])]
+            # everything that has isoformat(): datetime, date, time, and an application's own timestamp type
+            return ['date', rng.choice(['2020-01-02T03:04:05', '1999-12-31T23:59:59.000123', '2024-02-29', '0001-01-01', '03:04:05',
+                                        '23:59:59.000123', 'iso:2020-W01-3', 'iso:é中 <stamp>'])]
         if k == 'plain':
             return ['plain', rng.choice(['obj1', '<weird "repr">', 'é'])]
         if k == 'gen':
@@ -91,7 +93,21 @@ def to_python(spec):
     if t in ('i', 'f', 'bool'):
         return spec[1]
     if t == 'date':
-        return datetime.datetime.fromisoformat(spec[1])
+        v = spec[1]
+        if v.startswith('iso:'):
+            class Stamp(object):
+                def __init__(self, text):
+                    self.text = text
+
+                def isoformat(self):
+                    return self.text
+
+                def __repr__(self):
+                    return 'Stamp'
+            return Stamp(v[4:])
+        if 'T' in v:
+            return datetime.datetime.fromisoformat(v)
+        return datetime.time.fromisoformat(v) if ':' in v else datetime.date.fromisoformat(v)
     if t == 'plain':
         class Plain(object):
             def __init__(self, r):
@@ -162,7 +178,7 @@ def to_model(spec):
     if t == 'bool':
         return ['bool', bool(spec[1])]
     if t == 'date':
-        return ['date', spec[1]]
+        return ['date', (spec[1][4:] if spec[1].startswith('iso:') else spec[1]).encode('utf8')]
     if t == 'plain':
         return ['plain', spec[1].encode('utf8')]
     if t == 'gen':
